@@ -24,7 +24,7 @@ def shapes(max_n=3):
     return out
 
 
-def run_case(kind, shared, o1, o2, symmetry, named, rng, one_list=False):
+def run_case(kind, shared, o1, o2, symmetry, named, rng, one_list=False, dup=False):
     from PEPit import PEP, Point, Expression, Constraint
     from PEPit.function import Function
     p = PEP()
@@ -37,6 +37,9 @@ def run_case(kind, shared, o1, o2, symmetry, named, rng, one_list=False):
         return (x, Point(), Expression())
 
     S = [sample('s%d' % i) for i in range(shared)]
+    if dup and len(S) >= 2:
+        # a repeated evaluation at one point (non-differentiable class): a second SAMPLE with the same point object
+        S[1] = (S[0][0], Point(), S[0][2])
     A = [sample('a%d' % i) for i in range(o1)]
     B = [sample('b%d' % i) for i in range(o2)]
     if kind == 'same':
@@ -67,12 +70,12 @@ def run_case(kind, shared, o1, o2, symmetry, named, rng, one_list=False):
         want_pairs = [(i, j) for i in range(len(l1)) for j in range(len(l2))
                       if l1[i] is not l2[j] and not (symmetry and i > j)]
     new = f.list_of_class_constraints[len(pre):]
-    desc = dict(kind=kind, shared=shared, only1=o1, only2=o2, symmetry=symmetry, named=named, one_list=one_list,
+    desc = dict(kind=kind, shared=shared, only1=o1, only2=o2, symmetry=symmetry, named=named, one_list=one_list, dup=dup,
                 l1=[id(t) % 1000 for t in l1], l2=[id(t) % 1000 for t in l2])
     got_pairs = []
     for (ti, tj, c) in calls:
-        i = [k for k, t in enumerate(l1) if t[0] is ti[0] and t[1] is ti[1]][0]
-        j = None if tj is None else [k for k, t in enumerate(l2) if t[0] is tj[0] and t[1] is tj[1]][0]
+        i = [k for k, t in enumerate(l1) if t[0] is ti[0] and t[1] is ti[1] and t[2] is ti[2]][0]
+        j = None if tj is None else [k for k, t in enumerate(l2) if t[0] is tj[0] and t[1] is tj[1] and t[2] is tj[2]][0]
         got_pairs.append((i, j))
     if got_pairs != want_pairs:
         missing = [q for q in want_pairs if q not in got_pairs]
@@ -145,7 +148,9 @@ def enumerate_cases(seed, thorough=False):
     out = []
     for c in cases:
         for rep in range(3 if c[0] == 'two' else 1):
-            out.append((c, rng.randrange(10 ** 9)))
+            out.append((c + (False,), rng.randrange(10 ** 9)))
+        if c[1] >= 2:
+            out.append((c + (True,), rng.randrange(10 ** 9)))
     return out
 
 
@@ -153,9 +158,9 @@ def run_all(seed, thorough=False):
     """returns (n_cases, failures[list of dict])"""
     results = []
     cases = enumerate_cases(seed, thorough)
-    for (kind, shared, o1, o2, symmetry, named, one), s in cases:
+    for (kind, shared, o1, o2, symmetry, named, one, dup), s in cases:
         rng = random.Random(s)
-        desc, fails = run_case(kind, shared, o1, o2, symmetry, named, rng, one_list=one)
+        desc, fails = run_case(kind, shared, o1, o2, symmetry, named, rng, one_list=one, dup=dup)
         desc['case_seed'] = s
         if fails:
             results.append({'case': desc, 'failed': fails})
@@ -164,4 +169,5 @@ def run_all(seed, thorough=False):
 
 def replay(case):
     rng = random.Random(case['case_seed'])
-    return run_case(case['kind'], case['shared'], case['only1'], case['only2'], case['symmetry'], case['named'], rng, one_list=case['one_list'])
+    return run_case(case['kind'], case['shared'], case['only1'], case['only2'], case['symmetry'], case['named'], rng,
+                    one_list=case['one_list'], dup=case.get('dup', False))
